@@ -680,7 +680,9 @@ def geterrortext(
         raise
     except BaseException:
         errortext = f"{type(exc).__name__}: {exc}"
-    return errortext
+    # the text travels through the serializer: lone surrogates (e.g. from
+    # undecodable file names) would make reporting the error fail itself
+    return errortext.encode("utf-8", "backslashreplace").decode("utf-8")
 
 
 class RemoteError(Exception):
